@@ -32,7 +32,8 @@ Step(st) ==
   IN
   IF st.pc = "next" THEN
       IF avail = 0 THEN                             \* size == 0: next_file()
-          IF st.idx < n THEN [st EXCEPT !.idx = st.idx + 1, !.off = 0]
+          IF st.idx < n THEN (IF Variant = "m_spin" THEN st          \* mutant: an exhausted file is never left
+                              ELSE [st EXCEPT !.idx = st.idx + 1, !.off = 0])
           ELSE [st EXCEPT !.pc = "done"]
       ELSE IF avail < st.P THEN                     \* size < piece_length: _handle_partial
           LET arr == <<g, avail, TRUE>> IN
@@ -133,6 +134,8 @@ Init == \E sizes \in SizeVecs, P \in PieceLens, al \in Aligns :
             /\ st = InitSt(sizes, P, al)
 Next == st.pc # "done" /\ st' = Step(st)
 Spec == Init /\ [][Next]_st
+\* liveness: every run of the iterator ends (weak fairness = the caller keeps calling next())
+FairSpec == Spec /\ WF_st(Next)
 
 TypeOK == st.pc \in {"next", "partial", "done"} /\ st.idx \in 1 .. Len(st.sizes)
 \* C01: the piece string is the BEP 3 hashing of the files in list order
